@@ -4,6 +4,7 @@ from cssutils.css import CSSStyleDeclaration
 
 BAD_VALUE, BAD_PRIO = "#bad", "#badprio"
 PROBES = ["color", "COLOR", "c~olor", "left", "lef~t", "top"]
+COMMENTS = [False]
 
 
 def value_text(v):
@@ -70,13 +71,16 @@ def apply(style, a):
     if op == "setempty":
         return outcome(lambda: style.setProperty(unesc(a["lit"]), ""))
     if op == "settext":
-        return outcome(lambda: setattr(style, "cssText", "; ".join(decl_text(d) for d in a["decls"])))
+        # variant: a comment before every declaration (items of the block that are not entries of the list)
+        pre = "/*c*/ " if COMMENTS[0] else ""
+        return outcome(lambda: setattr(style, "cssText", "; ".join(pre + decl_text(d) for d in a["decls"])))
     raise ValueError(op)
 
 
 def run_trace(item):
     """item = {'id':..., 'actions': [...]} -> trace record for DeclBlockTrace"""
     init()
+    COMMENTS[0] = bool(item.get("comments"))
     style = CSSStyleDeclaration()
     tr = {"id": item["id"], "init": project(style), "steps": []}
     for a in item["actions"]:
